@@ -30,12 +30,12 @@ CHECKS = {
 CHECKS.update({
     'C07': dict(
         technique='index-provenance dataflow over MIR origin terms + whole-database effect table',
-        text='Every Key/Prefix constructor call in the library takes the function\'s own index (self.index, a u16 parameter fed by induction over the call graph, or the per-index upgrade loop variable); every heed operation\'s key/prefix/range is built by such a constructor; ranges are the inclusive full id range of one kind of one index; cursor writes use the yielded key; whole-database operations only in upgrade/n_nodes. Holds for every pair of index numbers and ids at once because it is a fact about the code, not about sampled indexes.',
+        text='Every Key/Prefix constructor call in the library takes the function\'s own index (self.index, a u16 parameter fed by induction over the call graph, or the per-index upgrade loop variable); every heed operation\'s key/prefix/range is built by such a constructor; ranges are the inclusive full id range of one kind of one index; cursor writes use the yielded key; whole-database operations only in upgrade/n_nodes. Holds for every pair of index numbers and ids at once because it is a fact about the code, not about sampled indexes. The key codec clause of C16 is re-evaluated (the index must survive decode/encode of cursor-based rewrites) and the whole-database count accessor has no caller inside the library.',
         design='DESIGN.md §4 C07',
         note='NOT decided: heed\'s prefix iteration itself; byte-for-byte equality is implied by, not checked beyond, key provenance.'),
     'C10': dict(
         technique='error-discipline (Result consumption) dataflow over MIR locals + effect tables + finite-domain evaluation of the cancel poll',
-        text='Every Result carrying heed::Error/io::Error/arroy::Error anywhere in the library (incl. every cancellation poll and iterator item) is propagated by an accepted idiom; swallowing consumers, Err arms reaching success, rewrapped cancellation errors, leak primitives, internal commits and non-owning temp-file handles are violations naming the site. Covers every fault position at once, which fault-injection tests can only sample.',
+        text='Every Result carrying heed::Error/io::Error/arroy::Error anywhere in the library (incl. every cancellation poll and iterator item) is propagated by an accepted idiom; swallowing consumers, Err arms reaching success, rewrapped cancellation errors, leak primitives, internal commits and non-owning temp-file handles are violations naming the site. Covers every fault position at once, which fault-injection tests can only sample. Temporary node files are created in the configured directory whenever one is configured, and a writer derived from a writer keeps it (R-TMPDIR: an unusable temp directory surfaces as an IO error).',
         design='DESIGN.md §4 C10',
         note='NOT decided: Option unwraps guarded by structural invariants; LMDB abort semantics; non-monotone callbacks.'),
     'C19': dict(
